@@ -61,9 +61,10 @@ CLAIMS = {
                 'the reserve product never decreases, liquidity is minted in proportion (rounded down); and the distribution of minted '
                 'liquidity to depositors (one depositor through process_deposits_for_single_pool, two at formula level).',
         'design_ref': 'DESIGN.md §8 C16, §12',
-        'note': COMMON_NOTE + ' Partial: existence of the built-in pools after create_builtins / pegging / subsidy is not encoded (one '
-                'operation from an arbitrary pool satisfying the invariant covers every history of that pool). Known finding: several '
-                'deposits in one block over-issue liquidity tokens.',
+        'note': COMMON_NOTE + ' create_builtins is executed from an arbitrary pools tree (built-in pools present afterwards, fresh ones with '
+                '10^9 reserves, existing ones untouched) and the withdrawal selector is run here too; that pegging / subsidy only '
+                'apply swap_many to existing pools is C01\'s frame kernel. Induction over blocks is by the invariant, not explored. '
+                'Known finding: several deposits in one block over-issue liquidity tokens.',
         'technique': 'bounded symbolic execution of rustc MIR; non-linear integer arithmetic after an exact translation (division '
                      'lemmas instead of div), lemma chaining between obligations of one path',
     },
